@@ -281,6 +281,11 @@ def _signature_index(repo=None):
             if decos - _SAFE_DECOS:
                 add(fn.name, None)
                 continue
+            # a function defined in a class body may also be called by its bare name inside that body (e.g. as a
+            # decorator), where no self is bound: such names are never rewritten
+            if is_method and any(isinstance(c, ast.Name) and c.id == fn.name for c in ast.walk(tree)):
+                add(fn.name, None)
+                continue
             add(fn.name, _params(fn, drop_first=is_method and "staticmethod" not in decos))
     return idx
 
